@@ -3,11 +3,14 @@
       1  fmt     : legacy Reader (plain / with AddLabels) on generated files,
                    Printer over the results, Reader over the printed text
       2  history : uploads through the in-process storage server on sqlite,
-                   then queries and listings through db.DB and storage.Client
+                   then queries and listings through db.DB and storage.Client;
+                   both the direct model (db_query / list_uploads) and the
+                   relational evaluation of the generated SQL (Model/Sql.v)
+                   are compared with what SQLite returned
     Domain on which the model is tied to the code: lines shorter than
     bufio.Scanner's 64 KiB token limit; cased letters only from ASCII, Latin-1,
     basic Greek and basic Cyrillic (Model/Words.v). *)
-From Perf Require Import Base.Bytes Base.Sx Model.Words Model.Query Model.StoreFmt.
+From Perf Require Import Base.Bytes Base.Sx Model.Words Model.Query Model.StoreFmt Model.Sql.
 
 Definition blist_eqb := list_eqb beq.
 
@@ -180,9 +183,34 @@ Definition corr_q (d : db) (c : qcase) : bool :=
                    | _ => qobs_matches m (qc_http c) end)
   && lobs_matches l (qc_dblist c) && lobs_matches l (qc_httplist c).
 
+(** the relational semantics of the generated SQL (Model/Sql.v), evaluated over
+    the tables the insert model builds from the same uploads, against what
+    SQLite returned: DB.Query as a bag of results, DB.ListUploads as a list.
+    (Day, Seq) of an upload are read off its ID "<Day>.<Seq>" as NewUpload
+    writes them. *)
+Definition id_daysq (id : bytes) : bytes * N :=
+  match index_byte id x2e with
+  | Some i => (firstn i id, match digits_val (skipn (S i) id) 0 with Some n => n | None => 0%N end)
+  | None => (id, 0%N)
+  end.
+
+Definition sql_corr_q (d : db) (c : qcase) : bool :=
+  match parse_query (qc_q c) with
+  | QOk ps =>
+      match parts_sql ps with
+      | Some subs =>
+          let T := tables_of d (map (fun s => id_daysq (s_id s)) d) in
+          qobs_matches (inl (flat_map read_content (sql_query T subs))) (qc_db c)
+          && lobs_matches (inl (sql_list_uploads T subs (qc_limit c))) (qc_dblist c)
+      | None => false      (* parse_query has checked part.sql's only error *)
+      end
+  | _ => true
+  end.
+
 Definition corr_h (c : hcase) : bool :=
   let '(d, ok) := run_uploads [] (h_uploads c) in
-  ok && qobs_matches (db_query d []) (ObsRes (h_all c)) && forallb (corr_q d) (h_queries c).
+  ok && qobs_matches (db_query d []) (ObsRes (h_all c)) && forallb (corr_q d) (h_queries c)
+  && forallb (sql_corr_q d) (h_queries c).
 
 (** *** the specification on the observed output *)
 
